@@ -312,7 +312,20 @@ func (a *Analyzer) fillSummary(s *summary, env map[ssa.Value]*Term, init Facts, 
 		}
 		return r
 	}
-	s.succ, s.fail, s.post = strip(succ), strip(fail), strip(post)
+	// no feasible return with that verdict (e.g. under the caller's case split every path ends in the error return):
+	// the corresponding edge in the caller is infeasible
+	if s.resIdx >= 0 && post != nil {
+		if succ == nil && fail != nil {
+			succ = Facts{deadAtom.Key(): deadAtom}
+		} else if fail == nil && succ != nil && len(assume) > 0 {
+			fail = Facts{deadAtom.Key(): deadAtom}
+		}
+	}
+	// what every normal return has executed (done atoms) stays in post: a caller of a helper knows what the helper must have done
+	s.succ, s.fail, s.post = strip(succ), strip(fail), post
+	if s.post == nil {
+		s.post = Facts{}
+	}
 }
 
 // instantiate the summary facts for concrete argument terms.
